@@ -178,11 +178,15 @@ pub fn check_merge(sa: &Snapshot, sb: &Snapshot, sr: &Snapshot) -> Vec<MV> {
             continue;
         }
         if !renamed && !in_a.is_empty() {
-            // shared: must be identical as written
+            // shared: A's element must be what B's element is after the renaming of its references (two elements with the same
+            // text are different elements when a reference of B's designates a renamed target)
             let a = in_a[0];
             if a.kind != e.kind || a.dv.canon() != e.dv.canon() {
                 // not identical and not renamed: B's element is lost
                 out.push(MV { category: "conservation", oracle: "B-element-lost", detail: e.kind.clone(), what: format!("{} {} of B differs from A's element of the same name but was not added under a fresh name", e.kind, e.name) });
+            } else if a.dv.canon() != expected.canon() {
+                let site = e.edges.iter().find(|ed| map(ed.ns, &ed.target) != ed.target).map(|ed| ed.site.clone()).unwrap_or_default();
+                out.push(MV { category: "reference", oracle: "twin-shared-despite-renamed-target", detail: format!("{}/{site}", e.kind), what: format!("{} {} of B has the same text as A's, but its reference at {site} designates an element that was renamed by the merge: it is represented by A's element, whose reference designates A's own target", e.kind, e.name) });
             }
             continue;
         }
